@@ -71,3 +71,72 @@ HARNESS(mx_scan_clear) {
   OBSERVE(c.n);
   WITNESS();
 }
+
+// scan_from / scan_range: the visitor must run under the mutex, the call must return with it released, and the visit sequence must be
+// that of the 3-entry map (so a scan that lost its lock AND its content is also seen).  A symbolic bound makes the iterator stack
+// symbolic and the query ran out of 20 GB; the bound is therefore a constant per entry (boundary catalogue below) and the halting
+// position of the visitor is the symbolic input.
+struct rec { unsigned n; unsigned held_bad; std::uint64_t keys[4]; };
+template <class V> static std::uint64_t key_of(const V& v) { auto kv = v.get_key(); std::uint64_t k = 0; for (std::size_t i = 0; i < 8 && i < kv.size(); i++) k = (k << 8) | static_cast<std::uint8_t>(kv[i]); return k; }
+static void scan_from_case(std::uint64_t from, bool fwd) {
+  static db_t d; build(d);
+  rec c{0, 0, {0, 0, 0, 0}};
+  const std::uint64_t halt = in_range(1, 4);
+  auto fn = [&c, halt](const auto& v) { if (c.n < 4) c.keys[c.n] = key_of(v); c.n++; if (verif_mutex_held() != 1) c.held_bad++; return c.n >= halt; };
+  d.scan_from(from, fn, fwd);
+  PROP(verif_mutex_held() == 0, "C13: scan_from returns with the index mutex released");
+  PROP(c.held_bad == 0, "C13: the scan_from visitor runs with the index mutex held");
+  unsigned exp = 0; std::uint64_t ek[3];
+  if (fwd) { for (unsigned i = 0; i < 3; i++) if (K[i] >= from) ek[exp++] = K[i]; }
+  else { for (unsigned i = 3; i-- > 0;) if (K[i] <= from) ek[exp++] = K[i]; }
+  if (exp > halt) exp = static_cast<unsigned>(halt);
+  PROP(c.n == exp, "C13: scan_from visits exactly the entries from the bound onwards, until halted");
+  for (unsigned i = 0; i < 3; i++) if (i < exp && i < c.n) PROP(c.keys[i] == ek[i], "C13: scan_from visits them in key order");
+  { auto g = d.get(K[0]); PROP(g.first.has_value() && g.second.owns_lock(), "C13: the index is usable after the scan (the mutex is free)"); }
+  OBSERVE(c.n);
+  WITNESS();
+}
+static void scan_range_case(std::uint64_t from, std::uint64_t to) {
+  static db_t d; build(d);
+  rec c{0, 0, {0, 0, 0, 0}};
+  const std::uint64_t halt = in_range(1, 4);
+  auto fn = [&c, halt](const auto& v) { if (c.n < 4) c.keys[c.n] = key_of(v); c.n++; if (verif_mutex_held() != 1) c.held_bad++; return c.n >= halt; };
+  d.scan_range(from, to, fn);
+  PROP(verif_mutex_held() == 0, "C13: scan_range returns with the index mutex released");
+  PROP(c.held_bad == 0, "C13: the scan_range visitor runs with the index mutex held");
+  unsigned exp = 0; std::uint64_t ek[3];
+  if (from < to) { for (unsigned i = 0; i < 3; i++) if (K[i] >= from && K[i] < to) ek[exp++] = K[i]; }
+  else if (from > to) { for (unsigned i = 3; i-- > 0;) if (K[i] <= from && K[i] > to) ek[exp++] = K[i]; }
+  if (exp > halt) exp = static_cast<unsigned>(halt);
+  PROP(c.n == exp, "C13: scan_range visits exactly the entries of the interval, until halted");
+  for (unsigned i = 0; i < 3; i++) if (i < exp && i < c.n) PROP(c.keys[i] == ek[i], "C13: scan_range visits them in key order");
+  OBSERVE(c.n);
+  WITNESS();
+}
+#define OTHER 0x01020304FF060700ULL   /* diverges inside the compressed prefix */
+#define SF(name, from) HARNESS(mx_sf_##name##_f) { scan_from_case(from, true); } HARNESS(mx_sf_##name##_r) { scan_from_case(from, false); }
+SF(zero, 0ULL) SF(k0, K[0]) SF(k0p, K[0] + 1) SF(k1, K[1]) SF(k2, K[2]) SF(k2p, K[2] + 1) SF(max, ~0ULL) SF(other, OTHER)
+#define SR(name, from, to) HARNESS(mx_sr_##name) { scan_range_case(from, to); }
+SR(k0_k2, K[0], K[2]) SR(k2_k0, K[2], K[0]) SR(all_up, K[0] - 1, K[2] + 1) SR(all_down, K[2] + 1, K[0] - 1) SR(equal, K[1], K[1])
+SR(mid_up, K[0] + 1, K[1] + 1) SR(mid_down, K[1] + 1, K[0] + 1) SR(full_up, 0ULL, ~0ULL) SR(full_down, ~0ULL, 0ULL)
+#ifdef UNODB_DETAIL_WITH_STATS
+// the statistics getters read index state: they too must run under the mutex and release it
+HARNESS(mx_stats) {
+  static db_t d; build(d);
+  const std::uint64_t k = in_u64(); const std::uint8_t v = 7;
+  (void)d.insert(k, vv(&v, 1));
+  const auto mem = d.get_current_memory_use(); PROP(verif_mutex_held() == 0, "C13: get_current_memory_use returns with the index mutex released");
+  const auto nc = d.get_node_count<node_type::LEAF>(); PROP(verif_mutex_held() == 0, "C13: get_node_count returns with the index mutex released");
+  const auto ncs = d.get_node_counts(); PROP(verif_mutex_held() == 0, "C13: get_node_counts returns with the index mutex released");
+  const auto g = d.get_growing_inode_count<node_type::I4>(); PROP(verif_mutex_held() == 0, "C13: get_growing_inode_count returns with the index mutex released");
+  const auto gs = d.get_growing_inode_counts(); PROP(verif_mutex_held() == 0, "C13: get_growing_inode_counts returns with the index mutex released");
+  const auto sh = d.get_shrinking_inode_count<node_type::I4>(); PROP(verif_mutex_held() == 0, "C13: get_shrinking_inode_count returns with the index mutex released");
+  const auto shs = d.get_shrinking_inode_counts(); PROP(verif_mutex_held() == 0, "C13: get_shrinking_inode_counts returns with the index mutex released");
+  const auto ps = d.get_key_prefix_splits(); PROP(verif_mutex_held() == 0, "C13: get_key_prefix_splits returns with the index mutex released");
+  const unsigned leaves = idx_of(k) >= 0 ? 3u : 4u;
+  PROP(nc == leaves && ncs[as_i<node_type::LEAF>] == leaves, "C13: the leaf count read through the mutex index is the number of entries");
+  PROP(mem > 0 && g >= 1 && gs[internal_as_i<node_type::I4>] == g && sh == shs[internal_as_i<node_type::I4>], "C13: the counters read through the mutex index are consistent with each other");
+  OBSERVE(mem); OBSERVE(nc); OBSERVE(ps);
+  WITNESS();
+}
+#endif
